@@ -9,7 +9,20 @@ length).  Keyed by (function key, loop ordinal) in Contract.loops.
     exit:      assume inv and not cond; continue after the loop
 
 The step path starts from an ARBITRARY state satisfying the invariant, so the proof covers every
-number of iterations.  Termination (variant) is argued separately, relative to A-CLK / A-HW-LIVE."""
+number of iterations.
+
+TERMINATION (LoopSpec.variant, `while` loops): a spec function V(int locals..., using
+clock_now()) -> int.  The ghost clock is scrambled at the loop head (c_h: the last reading of an
+arbitrary earlier turn) and the FIRST time.monotonic_ns() of the turn returns a strictly later value
+(A-CLK-PROGRESS: time advances from one turn of a loop to the next; timer granularity ignored).
+With V_h = V at the head, V_c = V after the condition held, V_e = V at the end of a turn that goes
+round again, the obligation <name>.loop<k>.variant is
+
+        V_e < V_h   and   V_c <= V_h   and   (V_c >= 0 or V_e >= 0)
+
+Since state and clock at the end of turn i are those at the head of turn i+1, M(i) = V_h(i) is
+strictly decreasing and >= 0 at every turn that completes: finitely many turns.  Loops without a
+variant: termination argued (A-HW-LIVE / A-RX-FIN), not mechanised."""
 import ast
 import z3
 
@@ -156,6 +169,46 @@ def _frame_check(it, spec, frame, fr0, oname, tag):
     it.ctx.oblige(oname + ".frame", ops.values_eq(it, fr0, fr1), info={"loop": tag})
 
 
+def _havoc_clock(it, tag):
+    """the last clock reading of an arbitrary earlier turn: anything not before the reading at entry"""
+    ctx = it.ctx
+    ctx.fresh_n += 1
+    v = ctx.input_int("loop.%s.clock!%d" % (tag, ctx.fresh_n), 0, 1 << 61)
+    if ctx.clock is not None:
+        ctx.assume(sym.cmp(">=", v, ctx.clock))
+    ctx.clock = v
+    ctx.clock_strict = True      # the next reading belongs to a later turn: strictly later (A-CLK-PROGRESS)
+
+
+def _generalise_variant_params(it, st, frame, spec, tag):
+    """int locals the variant reads and the loop never assigns (a deadline computed before the loop)
+    are replaced by a fresh value of the same range: forgetting HOW they were computed (a 64-bit
+    product) is sound and keeps the termination VCs linear"""
+    ctx = it.ctx
+    assigned = _assigned_names(st)
+    for a in it.program.func(spec.variant).node.args.args:
+        cur = frame.locals.get(a.arg)
+        if a.arg in assigned or not isinstance(cur, SInt):
+            continue
+        lo, hi = sym.rng(cur)
+        ctx.fresh_n += 1
+        frame.locals[a.arg] = ctx.input_int("loop.%s.%s.any!%d" % (tag, a.arg, ctx.fresh_n), lo, hi)
+
+
+def _variant_value(it, spec, frame):
+    v = _call_spec(it, it.program.func(spec.variant), frame)
+    if isinstance(v, bool) or not isinstance(v, (int, SInt)):
+        raise Unsupported("loop variant must be an int")
+    return v
+
+
+def _variant_check(it, oname, tag, v_h, v_c, v_e):
+    dec = sym.cmp("<", v_e, v_h)
+    mono = sym.cmp("<=", v_c, v_h)
+    low = sym.b_or(sym.cmp(">=", v_c, 0), sym.cmp(">=", v_e, 0))
+    it.ctx.oblige(oname + ".variant", sym.b_and(dec, mono, low), info={"loop": tag, "rule": "V_e < V_h, V_c <= V_h, V_c >= 0 or V_e >= 0"})
+
+
 def run_while_with_invariant(it, st, frame, spec):
     ctx = it.ctx
     prog = it.program
@@ -166,6 +219,8 @@ def run_while_with_invariant(it, st, frame, spec):
     ctx.oblige(oname + ".entry", ops.truthy(it, _call_spec(it, inv, frame)), info={"loop": tag})
     if spec.entry:
         ctx.oblige(oname + ".at_entry", ops.truthy(it, _call_spec(it, prog.func(spec.entry), frame)), info={"loop": tag})
+    if spec.variant:
+        _generalise_variant_params(it, st, frame, spec, tag)
     # havoc
     ctx.write_log = set()
     oid0 = ctx.next_oid
@@ -180,15 +235,21 @@ def run_while_with_invariant(it, st, frame, spec):
         if n in frame.locals:
             frame.locals[n] = _havoc_local(it, n, frame.locals[n], tag)
     _havoc_shaped_locals(it, spec, frame, tag)
+    if spec.variant:
+        _havoc_clock(it, tag)
     ctx.assume(ops.truthy(it, _call_spec(it, inv, frame)))
     ctx.fresh_n += 1
     mode = SBool(z3.Bool("loopmode!%d" % ctx.fresh_n))
     step = ctx.branch(mode)
+    if not step:
+        ctx.clock_strict = False     # exit path: possibly no turn at all since the reading at entry
     fr0 = _call_spec(it, prog.func(spec.frame), frame) if (spec.frame and step) else None
     snap1 = _snapshot(ctx) if step else None
+    v_h = _variant_value(it, spec, frame) if (spec.variant and step) else None
     c = ops.truthy(it, it.eval(st.test, frame))
     if step:
         ctx.assume(c)
+        v_c = _variant_value(it, spec, frame) if spec.variant else None
         try:
             it.exec_block(st.body, frame)
         except BreakSig:
@@ -200,6 +261,8 @@ def run_while_with_invariant(it, st, frame, spec):
         _frame_check(it, spec, frame, fr0, oname, tag)
         _footprint_check(it, foot, snap1, oname, tag)
         ctx.oblige(oname + ".preserved", ops.truthy(it, _call_spec(it, inv, frame)), info={"loop": tag})
+        if spec.variant:
+            _variant_check(it, oname, tag, v_h, v_c, _variant_value(it, spec, frame))
         ctx.notes.append("loop-step " + tag)
         raise PathEnd()
     ctx.assume(b_not(c) if not isinstance(c, bool) else (not c))
